@@ -12,6 +12,8 @@ import (
 	"github.com/adrg/xdg"
 	"github.com/mitchellh/go-homedir"
 	"gopkg.in/yaml.v3"
+
+	"github.com/cube2222/octosql/verifhook"
 )
 
 const ApplicationName = "octosql"
@@ -107,6 +109,7 @@ func WriteFileAtomically(path string, data []byte, perm os.FileMode) error {
 		return err
 	}
 	defer os.Remove(f.Name())
+	verifhook.CrashTornWrite("write:"+filepath.Base(filepath.Dir(path))+":tmp", f.Name(), data)
 	if _, err := f.Write(data); err != nil {
 		f.Close()
 		return err
@@ -117,9 +120,11 @@ func WriteFileAtomically(path string, data []byte, perm os.FileMode) error {
 	if err := os.Chmod(f.Name(), perm); err != nil {
 		return err
 	}
+	verifhook.Crash("write:" + filepath.Base(filepath.Dir(path)) + ":tmp-written")
 	if err := os.Rename(f.Name(), path); err != nil {
 		return err
 	}
+	verifhook.Crash("write:" + filepath.Base(filepath.Dir(path)) + ":renamed")
 	return nil
 }
 
